@@ -8,7 +8,9 @@ fed key-permuted but equal documents and differently ordered file creation):
     configurations, memoization hashes),
 and in-process: FlowIR.override_object, ComponentSpecification._memoization_info_to_hash, dsl.namespace_to_flowir
 (S5: the loop that rewrites output references, S6: component / environment names; each also on a key-permuted copy
-of the document), FlowIR.apply_replicate -> compile_component_aggregate (S7: the collection of replicated references
+of the document, which has to be accepted alike and to compile to the same FlowIR; and the traversal that decides
+which templates replicate, ScopeStack.can_template_replicate, vs Det.Replicate), FlowIR.apply_replicate ->
+compile_component_aggregate (S7: the collection of replicated references
 and the aggregate() closure), plus a static scan (Python ast) of the anchored files for iteration over unordered
 sources (also a set handed to a function that iterates over the parameter receiving it).
 
@@ -43,6 +45,11 @@ ASSUMPTIONS = [
     'S6 (component / environment naming of namespace_to_flowir) is modelled without oracle from the workflows '
     '(name, steps mapping, execute list), the component template names and the entry instance; rejections of a '
     'namespace for reasons outside these fields are not modelled (the generators do not produce them)',
+    'S6 (which templates replicate, ScopeStack.can_template_replicate): the work list, the visited set, the order of '
+    'the parameters, the two scans per string and the break at an aggregating producer are modelled '
+    '(Det.Replicate.walk); which Component a reference of a string resolves to is recomputed by the harness with the '
+    'real regular expressions, OutputReference.from_str and the table of scopes; the caches replicating_components / '
+    'aggregating_components are not modelled (the real code runs with them, in its own call order)',
     'YAML documents have no repeated keys (wfk); variable values are str/int/bool',
     'a process is modelled without state (Det.Model.session = map of single loads); state kept by the implementation '
     'between two loads is visible only to the session runs: 3-6 loads per process sharing files, 6 processes with '
@@ -686,6 +693,10 @@ def check_pkgs(ctx, cases, parsed, ref_terms):
             if ok:
                 agg = [n for n in dump['names'] if n.endswith('.agg')]
                 ctx.count('pkg:replica_family:aggregate_producers', sum(len([e for e in dump['edges'] if e[1] == a]) for a in agg))
+        if case.get('family') == 'dslrep':
+            ctx.count('pkg:dsl_replicate_family:%s' % ('loaded' if ok else 'rejected:' + dump['error']))
+            if ok:
+                ctx.count('pkg:dsl_replicate_family:replicas', sum(1 for n in dump['names'] if n[-1:].isdigit()))
         if not ok:
             continue
         ctx.count('pkg:components', ncomp)
@@ -694,7 +705,9 @@ def check_pkgs(ctx, cases, parsed, ref_terms):
         for n, conf in dump['components'].items():
             if isinstance(conf, dict):
                 refs = conf.get('references', [])
-                if case['format'] == 'dsl':
+                # S4 speaks of the references as the DSL front-end leaves them; the replication of an aggregating
+                # component expands each of them in place into the references to the replicas (document order)
+                if case['format'] == 'dsl' and not (conf.get('workflowAttributes') or {}).get('aggregate'):
                     ref_terms.append((cpair(clist(refs, cstr), clist(refs, cstr)), {'component': n, 'references': refs}))
         # last file wins, seen through the resolved configurations
         for name in ('x', 'y', 'w', 'foo'):
@@ -904,6 +917,11 @@ def s5_inprocess(ctx, only=None):
             except Exception as e:
                 outcome = 'rejected:' + type(e).__name__
             ctx.count('s5:namespace:' + outcome)
+            dsl.ComponentFlowIR.convert_outputreferences_to_datareferences = orig
+            try:
+                same_for_permuted_keys(ctx, dsl, doc, 's5', copies=1 if only is None else 8)
+            finally:
+                dsl.ComponentFlowIR.convert_outputreferences_to_datareferences = wrapper
             for rec in records:
                 if rec['raised'] or not isinstance(rec['before'], str):
                     ctx.count('s5:component:raised')
@@ -1123,7 +1141,9 @@ def _naming_of(dsl, doc):
         except experiment.model.errors.DSLInvalidError as e:
             if not seen:
                 return None, 'DSLInvalidError'
-            raise
+            # rejected after the components were named (e.g. a parameter that is unknown to a component): outside
+            # the naming model; the key-permuted copy must be rejected alike (same_for_permuted_keys)
+            return None, 'rejected_after_naming'
     finally:
         dsl.ComponentFlowIR.convert_outputreferences_to_datareferences = orig
     uid = seen[-1][3]
@@ -1157,6 +1177,9 @@ def naming_inprocess(ctx, only=None):
                 ctx.fail({'doc': doc, 'a': res and [res[0], res[2]], 'b': res2 and [res2[0], res2[2]]},
                          'component / environment names differ for a key-permuted but equal DSL document', [])
                 break
+        same_for_permuted_keys(ctx, dsl, doc, 'naming', copies=1 if only is None else 8)
+        if outcome == 'rejected_after_naming':
+            continue
         wfs = [(w['signature']['name'], list(w['steps'].items()), [x['target'][1:-1] for x in w['execute']])
                for w in doc.get('workflows', [])]
         comps = [c['signature']['name'] for c in doc.get('components', [])]
@@ -1187,6 +1210,283 @@ def naming_inprocess(ctx, only=None):
     for i in bad:
         ctx.disagree(edescr[i], edescr[i]['impl_environment_names'], 'Det.Model.env_names',
                      'C15 S6: environment names given by namespace_to_flowir vs Det.Model.env_names')
+
+
+# ------------------------------------------------------------------ in-process: S6, which templates replicate
+HEADER_REP = HEADER + '\nRequire Import V.Det.Replicate.'
+REP_STEP_NAMES = ['generate', 'simulate', 'sample', 'collect', 'summarise', 'merge', 'prepare', 'relay', 'forward',
+                  'report', 'plot', 'final', 'check', 'render']
+REP_SPELLINGS = ['<%s>:ref', '<%s>:ref', '<%s>:output', '<%s>/out.txt:ref', '"<%s>"/out.txt:ref', '<%s/out.txt>:ref']
+REP_TEMPLATES = [
+    {'signature': {'name': 'gen', 'parameters': [{'name': 'replicas'}]},
+     'workflowAttributes': {'replicate': '%(replicas)s'},
+     'command': {'expandArguments': 'none', 'executable': 'echo', 'arguments': 'part %(replica)s'}},
+    {'signature': {'name': 'fixed', 'parameters': [{'name': 'msg', 'default': 'hello'}]},
+     'workflowAttributes': {'replicate': 2},
+     'command': {'expandArguments': 'none', 'executable': 'echo', 'arguments': '%(msg)s %(replica)s'}},
+    {'signature': {'name': 'agg', 'parameters': [{'name': 'parts'}, {'name': 'extra', 'default': 'none'}]},
+     'workflowAttributes': {'aggregate': True},
+     'command': {'expandArguments': 'none', 'executable': 'cat', 'arguments': '%(parts)s %(extra)s'}},
+    {'signature': {'name': 'plain', 'parameters': [{'name': 'a', 'default': 'x'}, {'name': 'b', 'default': 'y'}]},
+     'command': {'expandArguments': 'none', 'executable': 'echo', 'arguments': 'relay %(a)s %(b)s'}},
+    {'signature': {'name': 'use', 'parameters': [{'name': 'p', 'default': '-'}, {'name': 'q', 'default': '-'},
+                                                 {'name': 'r', 'default': '-'}]},
+     'command': {'expandArguments': 'none', 'executable': 'echo', 'arguments': 'use %(p)s %(q)s %(r)s'}},
+    {'signature': {'name': 'user', 'parameters': [{'name': 'p', 'default': '-'}, {'name': 'q', 'default': '-'},
+                                                  {'name': 'r', 'default': '-'}]},
+     'command': {'expandArguments': 'none', 'executable': 'echo',
+                 'arguments': 'replica %(replica)s %(p)s %(q)s %(r)s'}}]
+
+
+def gen_replicate_namespace(rng, sure=False):
+    """DSL 2.0 namespace whose steps have SEVERAL producers of DIFFERENT kinds: 1-2 replicating components (replicate
+    from a parameter / a literal), plain components (not downstream of anything; relaying a replicating one; behind an
+    aggregator), 1-2 aggregators, and 1-3 consumers whose 1-3 args reference a random mix of them (one reference per
+    value, now and then two in one string or none), most of which use %(replica)s exactly when they are expected to
+    be replicas (a few the other way round: the namespace is rejected, in every key order); now and then a consumer
+    sits in an inner workflow and receives the references through parameters, or an aggregator consumes a
+    consumer.  args / steps mappings are in random key orders.
+    sure: the boundary family - a consumer of a replicating component AND of its aggregator, aggregator key first"""
+    names = rng.sample(REP_STEP_NAMES, len(REP_STEP_NAMES))
+    steps, execute, kind, exp = {}, [], {}, {}
+
+    def add(name, template, args, k, e):
+        ks = list(args)
+        rng.shuffle(ks)
+        steps[name] = template
+        execute.append({'target': '<%s>' % name, 'args': {x: args[x] for x in ks}})
+        kind[name], exp[name] = k, e
+
+    def ref(n):
+        return rng.choice(REP_SPELLINGS) % n
+
+    reps = []
+    for _ in range(1 if sure else rng.choice([1, 1, 2])):
+        n = names.pop()
+        if rng.random() < 0.6:
+            add(n, 'gen', {'replicas': '%(replicas)s'}, 'R', True)
+        else:
+            add(n, 'fixed', {'msg': 'hello'} if rng.random() < 0.5 else {}, 'R', True)
+        reps.append(n)
+    pool = list(reps)
+    if rng.random() < 0.4:
+        n = names.pop()
+        add(n, 'plain', {'a': 'literal'}, 'P', False)
+        pool.append(n)
+    if rng.random() < 0.5:
+        n = names.pop()
+        add(n, 'plain', {'a': ref(rng.choice(reps)), 'b': 'text'}, 'P', True)
+        pool.append(n)
+    aggs = []
+    for _ in range(1 if sure else rng.choice([1, 1, 2])):
+        n = names.pop()
+        args = {'parts': ref(rng.choice([x for x in pool if exp[x]]))}
+        if rng.random() < 0.3:
+            args['extra'] = ref(rng.choice(pool))
+        add(n, 'agg', args, 'A', False)
+        aggs.append(n)
+    pool += aggs
+    if rng.random() < 0.4:
+        n = names.pop()
+        add(n, 'plain', {'a': ref(rng.choice(aggs))}, 'P', False)
+        pool.append(n)
+    inner = None
+    for ci in range(1 if sure else rng.randint(1, 3)):
+        n = names.pop()
+        keys = rng.sample(['p', 'q', 'r'], rng.choice([1, 2, 2, 3, 3]))
+        args, direct = {}, []
+        if sure:
+            args = {'p': ref(aggs[0]), 'q': ref(reps[0])}
+            direct = [aggs[0], reps[0]]
+            if rng.random() < 0.5:
+                args['r'] = ref(rng.choice(pool))
+        else:
+            for k in keys:
+                r_ = rng.random()
+                if r_ < 0.1:
+                    args[k] = 'just-text'
+                elif r_ < 0.3:
+                    two = [rng.choice(pool), rng.choice(pool)]
+                    args[k] = '%s %s' % (ref(two[0]), ref(two[1]))
+                    direct += two
+                else:
+                    x = rng.choice(pool)
+                    args[k] = ref(x)
+                    direct.append(x)
+        e = any(kind[x] == 'R' or (kind[x] != 'A' and exp[x]) for x in direct)
+        template = 'user' if ((e and rng.random() < 0.9) or (not e and rng.random() < 0.08)) else 'use'
+        if inner is None and not sure and rng.random() < 0.25:
+            # the consumer sits in an inner workflow and receives the references through its parameters
+            inner = {'signature': {'name': 'inner', 'parameters': [{'name': 'v' + k, 'default': '-'} for k in ['p', 'q', 'r']]},
+                     'steps': {'work': template},
+                     'execute': [{'target': '<work>', 'args': {k: '%%(v%s)s' % k for k in args}}]}
+            add(n, 'inner', {'v' + k: v for k, v in args.items()}, 'W', e)
+        else:
+            add(n, template, args, 'P', e)
+            pool.append(n)
+    if rng.random() < 0.3:
+        cands = [x for x in pool if kind[x] == 'P' and exp[x]]
+        if cands:
+            add(names.pop(), 'agg', {'parts': ref(rng.choice(cands)), 'extra': ref(rng.choice(pool))}, 'A', False)
+    sk = list(steps)
+    rng.shuffle(sk)
+    if rng.random() < 0.3:
+        rng.shuffle(execute)
+    doc = {'entrypoint': {'entry-instance': 'main', 'execute': [{'target': '<entry-instance>', 'args': {'replicas': 2}}]},
+           'workflows': [{'signature': {'name': 'main', 'parameters': [{'name': 'replicas', 'default': 1}]},
+                          'steps': {k: steps[k] for k in sk}, 'execute': execute}],
+           'components': copy.deepcopy(REP_TEMPLATES)}
+    if inner:
+        doc['workflows'].append(inner)
+    return doc
+
+
+def gen_dsl_replica_pkg(rng, sure=False):
+    k = rng.choice([0, 0, 1, 2])
+    names = ['%s.yaml' % w for w in rng.sample(WORDS, k)]
+    vfiles = {n: {'global': {'replicas': 2, 'note': 'f%d' % fi}} for fi, n in enumerate(names)}
+    given = list(names)
+    rng.shuffle(given)
+    return {'kind': 'pkg', 'format': 'dsl', 'doc': gen_replicate_namespace(rng, sure), 'files': {}, 'inputs': {},
+            'vfiles': vfiles, 'given': given, 'platform': None, 'family': 'dslrep'}
+
+
+def _compiled_of(dsl, doc):
+    """acceptance AND compiled result of the real namespace_to_flowir: ('converted', canonical FlowIR) or
+    ('rejected', sorted (error class, location in the document))"""
+    import experiment.model.errors as E
+    try:
+        concrete = dsl.namespace_to_flowir(dsl.Namespace(**copy.deepcopy(doc)))
+    except E.DSLInvalidError as e:
+        return 'rejected', sorted(json.dumps([type(x).__name__, [str(p_) for p_ in (getattr(x, 'location', None) or [])]])
+                                  for x in e.underlying_errors)
+    except Exception as e:
+        return 'rejected', [type(e).__name__]
+    return 'converted', json.loads(json.dumps(concrete.raw(), sort_keys=True, default=str))
+
+
+def same_for_permuted_keys(ctx, dsl, doc, stream, copies=1):
+    """the predicate for one DSL document handled in-process: an equal document whose mappings list their keys in
+    another order is accepted / rejected alike and compiles to the same FlowIR"""
+    a = _compiled_of(dsl, doc)
+    for _ in range(copies):
+        other = permute_keys(ctx.rng, copy.deepcopy(doc))
+        b = _compiled_of(dsl, other)
+        if a != b:
+            where = 'acceptance' if a[0] != b[0] else (first_diff(a[1], b[1]) or '/')
+            ctx.fail({'doc': doc, 'permuted': other, 'stream': stream, 'where': where,
+                      'a': [a[0], a[1] if a[0] == 'rejected' else _at(a[1], where)],
+                      'b': [b[0], b[1] if b[0] == 'rejected' else _at(b[1], where)]},
+                     'a key-permuted but equal DSL document is %s' %
+                     ('accepted by one load and rejected by the other' if a[0] != b[0] else
+                      ('compiled to a different FlowIR' if a[0] == 'converted' else 'rejected for other reasons')), [])
+            break
+    return a
+
+
+def _replicate_table(dsl, stack):
+    """the table of Det.Replicate from the scopes of the real ScopeStack: per template instance its location,
+    Component?, replicate set, aggregate, and per string parameter (in the order of the mapping) the Components the
+    references of the string resolve to, for the two scans (vanilla / nested pattern) in text order; the resolution
+    of a reference (trim its location until it names a Component) is redone here with the real regular expressions
+    and OutputReference.from_str"""
+    import re
+    pats = [re.compile(dsl.OutputReferenceVanilla), re.compile(dsl.OutputReferenceNested)]
+
+    def producer_of(location):
+        location = list(location)
+        while location:
+            sc = stack.scopes.get(tuple(location))
+            if sc is not None and isinstance(sc.template, dsl.Component):
+                return [str(x) for x in sc.location]
+            location = location[:-1]
+        return None
+    rows = []
+    for uid, sc in stack.scopes.items():
+        is_comp = isinstance(sc.template, dsl.Component)
+        repl = is_comp and sc.template.workflowAttributes.replicate not in ["0", 0, "", None]
+        agg = is_comp and sc.template.workflowAttributes.aggregate is True
+        params = []
+        for k, v in sc.parameters.items():
+            if not isinstance(v, str):
+                continue
+            groups = []
+            for pat in pats:
+                g = []
+                for m in pat.finditer(v):
+                    pr = producer_of(dsl.OutputReference.from_str(m.group(0)).location)
+                    if pr is not None:
+                        g.append(pr)
+                groups.append(g)
+            params.append((k, groups))
+        rows.append({'loc': [str(x) for x in uid], 'comp': is_comp, 'repl': bool(repl), 'agg': bool(agg), 'params': params})
+    return rows
+
+
+def _table_term(rows):
+    return clist(rows, lambda r: '(mk_inst %s %s %s %s %s)' % (
+        clist(r['loc'], cstr), common.cbool(r['comp']), common.cbool(r['repl']), common.cbool(r['agg']),
+        clist(r['params'], lambda kv: cpair(cstr(kv[0]), clist(kv[1], lambda g: clist(g, lambda l: clist(l, cstr)))))))
+
+
+def replicate_inprocess(ctx, only=None):
+    """ScopeStack.can_template_replicate of the real code (through namespace_to_flowir: every Component instance, in
+    the order and with the caches of the real digest) vs Det.Replicate.can_replicate on the table of instances; and
+    the predicate: key-permuted copies of the namespace are accepted alike and compile to the same FlowIR"""
+    import experiment.model.frontends.dsl as dsl
+    rng = ctx.rng
+    docs = [c['doc'] for c in corpus_cases() if c['kind'] == 'pkg' and c.get('format') == 'dsl']
+    n = 72 if ctx.tier == 'quick' else 720
+    for i in range(n):
+        docs.append(gen_replicate_namespace(rng, sure=(i % 6 == 0)))
+    for _ in range(5 if ctx.tier == 'quick' else 40):
+        docs.append(gen_dsl_pkg(rng)['doc'])
+    if only is not None:
+        docs = only
+    orig = dsl.ScopeStack.can_template_replicate
+    calls = []
+
+    def wrapper(self, location):
+        r = orig(self, location)
+        calls.append((self, [str(x) for x in location], r))
+        return r
+    terms, descr = [], []
+    for doc in docs:
+        del calls[:]
+        dsl.ScopeStack.can_template_replicate = wrapper
+        try:
+            outcome = _compiled_of(dsl, doc)[0]
+        finally:
+            dsl.ScopeStack.can_template_replicate = orig
+        ctx.count('replicate:namespace:' + outcome)
+        rows = _replicate_table(dsl, calls[0][0]) if calls else []
+        by_loc = {tuple(r['loc']): r for r in rows}
+        table = _table_term(rows)
+        mixed = 0
+        for _stack, location, answer in calls:
+            row = by_loc.get(tuple(location), {'params': []})
+            ks = set()
+            for _k, groups in row['params']:
+                for g in groups:
+                    for pr in g:
+                        x = by_loc[tuple(pr)]
+                        ks.add('R' if x['repl'] else ('A' if x['agg'] else 'P'))
+            several = len([1 for _k, groups in row['params'] if any(groups)]) >= 2
+            if several and len(ks) >= 2:
+                mixed += 1
+            ctx.count('replicate:asked:producer_kinds=%s%s:%s' % (''.join(sorted(ks)) or 'none',
+                                                                   ':several_args' if several else '', answer))
+            terms.append(cpair(cpair(table, clist(location, cstr)), common.cbool(bool(answer))))
+            descr.append({'doc': doc, 'location': location, 'impl_can_replicate': bool(answer), 'instances': rows})
+        ctx.case(['replicate', doc], mixed >= 1)
+        same_for_permuted_keys(ctx, dsl, doc, 'replicate', copies=2 if only is None else 8)
+        if mixed:
+            ctx.sample({'replicate_steps': doc['workflows'][0]['execute'],
+                        'answers': [['/'.join(c[1]), bool(c[2])] for c in calls]}, limit=2)
+    bad = ctx.model_mismatches(HEADER_REP, terms, 'check_replicate', chunk=100, name='replicate')
+    for i in bad:
+        ctx.disagree(descr[i], descr[i]['impl_can_replicate'], 'Det.Replicate.can_replicate',
+                     'C15 S6: answer of ScopeStack.can_template_replicate vs Det.Replicate.can_replicate')
 
 
 def _walk(o):
@@ -1612,7 +1912,14 @@ def run(ctx):
                 'producers with suffix / prefix related names (gen, mygen, remygen...) and an aggregating consumer using '
                 'relative / absolute spellings, loaded replicated in the 6 processes.  s7 case = one aggregating component '
                 'through the real apply_replicate: collection of replicated references and the aggregate() closure on '
-                'the strings of the component vs Det.Aggregate.aggregate_list; non-trivial = >= 2 replicated references')
+                'the strings of the component vs Det.Aggregate.aggregate_list; non-trivial = >= 2 replicated references.  '
+                'replicate case = DSL namespace with 1-2 replicating components, plain components (independent / relaying a '
+                'replicating one / behind an aggregator), 1-2 aggregators and 1-3 consumers (also inside an inner workflow) '
+                'whose 1-3 args reference a mix of them and which use %(replica)s (mostly) when they are replicas: every '
+                'answer of the real can_template_replicate vs Det.Replicate.can_replicate, and the namespace as generated '
+                'and key-permuted must be accepted alike and compile to the same FlowIR (also asked of every s5 / naming '
+                'namespace); non-trivial = a step with several reference-holding args whose producers are of >= 2 kinds.  '
+                'dsl replicate pkg = such a namespace as a package on disk, loaded replicated in the 6 processes')
     quick = ctx.tier == 'quick'
     vars_cases = [c for c in corpus_cases() if c['kind'] == 'vars']
     pkg_cases = [c for c in corpus_cases() if c['kind'] == 'pkg']
@@ -1631,12 +1938,16 @@ def run(ctx):
     # replicated loads: aggregating consumer of >= 2 replicating producers with prefix / suffix related names
     for i in range(6 if quick else 50):
         pkg_cases.append(gen_replica_pkg(rng, sensitive=(i % 2 == 0)))
-    static_scan(ctx)
-    explore(ctx, vars_cases, pkg_cases)
-    inprocess(ctx)
-    s5_inprocess(ctx)
-    s7_inprocess(ctx)
-    naming_inprocess(ctx)
+    # DSL 2.0 packages whose steps consume replicating, aggregating and plain components at once (replicated loads)
+    for i in range(4 if quick else 30):
+        pkg_cases.append(gen_dsl_replica_pkg(rng, sure=(i % 2 == 0)))
+    import time
+    for stage in (static_scan, lambda c: explore(c, vars_cases, pkg_cases), inprocess, s5_inprocess, s7_inprocess,
+                  naming_inprocess, replicate_inprocess):
+        t0 = time.time()
+        stage(ctx)
+        if os.environ.get('C15_TIMING'):
+            print('C15 timing: %s %.1fs' % (getattr(stage, '__name__', 'explore'), time.time() - t0))
     ctx.extra['processes'] = {'hash_seeds': SEEDS, 'document_variants': len(SEEDS)}
 
 
@@ -1649,6 +1960,7 @@ def replay(ctx, path):
         # an in-process DSL case (S5 reference rewriting / S6 naming)
         naming_inprocess(ctx, [c['doc']])
         s5_inprocess(ctx, [c['doc']])
+        replicate_inprocess(ctx, [c['doc']])
         for f in ctx.failures:
             print('REPRODUCED: %s: %s' % (f['what'], json.dumps(f['case'])[:600]))
         for f in ctx.disagreements:
